@@ -450,7 +450,7 @@ def replay(path):
 
 def configs(tier):
     out = []
-    ns = [1, 2, 3] if tier == 'quick' else [1, 2, 3, 4, 6]
+    ns = [1, 2, 3] if tier == 'quick' else [1, 2, 3, 4, 6, 8]
     shapes = [0, 1, 2] if tier == 'quick' else [0, 1, 2, 3]
     for n in ns:
         for (ra, rb) in itertools.product(shapes, repeat=2):
@@ -458,7 +458,7 @@ def configs(tier):
                 if n > 3 and (ka, kb) not in (('sa', 'sa'), ('csr', 'sa'), ('sa', 'csr'), ('csr', 'csr')):
                     continue
                 out.append(f'bs_prod n={n} a={ra}:{ka} b={rb}:{kb}')
-    for n in ([1, 2, 3] if tier == 'quick' else [1, 2, 3, 4, 5]):
+    for n in ([1, 2, 3] if tier == 'quick' else [1, 2, 3, 4, 5, 6]):
         out.append(f'converters n={n}')
     out += [f'converters-large n={n}' for n in ([16, 32, 33, 64, 70] if tier == 'quick' else [16, 31, 32, 33, 40, 63, 64, 65, 100, 300])]
     out += ['brank r=2 c=3', 'brank r=3 c=2'] + ([] if tier == 'quick' else ['brank r=3 c=3', 'brank r=2 c=5'])
